@@ -8,7 +8,7 @@ CRATES = ['basset_sei_hub', 'basset_sei_token_bsei', 'basset_sei_token_stsei', '
 BOUNDS = {'quick': {'delegations': '1..2', 'validators': 1}, 'thorough': {'delegations': '1..3'}}
 ASSUMPTIONS = ['E1-E4; the hub is not paused; both tokens registered', 'the holder unbonds 1 <= amount <= its balance <= the token supply',
                'excluded by the property: a validator set slashed to zero (total delegated >= 1)',
-               'withdrawal success once matured: obligation withdraw_matured_with_pending_request here (one matured batch, the holder also has a request in the open batch) and release:fails of C01']
+               'withdrawal success once matured: obligation withdraw_matured_with_pending_requests here (one matured batch; the holder also has a request in an undelegated batch that has not matured and one in the open batch) and release:fails of C01']
 OUTSIDE = ['the swap / oracle contracts can only influence a transaction that queries or calls them: decided on the query/message log of every path']
 
 
@@ -32,6 +32,13 @@ def ob_unbond(tok, nd):
                 nok += 1
                 e = effects(W, st, res)
                 ctx.witness('unbond_%s with undelegation' % tok, st, [z3.BoolVal(bool(e.undelegate_msgs))], W.mv)
+                passed = W.now - W.last_unbonded
+                cl = [(z3.Implies(passed > W.epoch, z3.BoolVal(bool(e.history_writes))), 'the request is undelegated by the first unbond that arrives after the epoch period', 'unbond_%s:undelegated' % tok)]
+                for hw in e.history_writes:
+                    hv = hw[5].val if hasattr(hw[5], 'val') else hw[5]
+                    cl.append((z3.And(hv.fields[1] == W.now, hv.fields[8] == False),   # noqa
+                               'the undelegated batch is recorded with the time of its undelegation (its claims mature one unbonding period later, not earlier)', 'unbond_%s:undelegation_time' % tok))
+                ctx.require_all(st, cl, W.mv)
                 continue
             what = res.msg if isinstance(res, Panic) else 'Err'
             # the pools as the handler sees them after its own slashing synchronisation
@@ -125,7 +132,12 @@ def _withdraw_pending(ctx):
     return ob_release(1, 0, real_kernel=True, pending=True)(ctx)
 
 
-OBLIGATIONS = [('withdraw_matured_with_pending_request', _withdraw_pending), ('unbond_bsei_d1', ob_unbond('b', 1)), ('unbond_stsei_d1', ob_unbond('s', 1)), ('unbond_bsei_d2', ob_unbond('b', 2)),
+def _withdraw_immature(ctx):
+    from checks.c01 import ob_release
+    return ob_release(1, 0, real_kernel=True, pending=True, immature=True)(ctx)
+
+
+OBLIGATIONS = [('withdraw_matured_with_pending_requests', _withdraw_immature), ('unbond_bsei_d1', ob_unbond('b', 1)), ('unbond_stsei_d1', ob_unbond('s', 1)), ('unbond_bsei_d2', ob_unbond('b', 2)),
                ('unbond_stsei_d2', ob_unbond('s', 2)), ('independent_hub', ob_independent_hub), ('independent_tokens', ob_independent_tokens)]
 
 
@@ -139,6 +151,17 @@ def ORACLE(v, scn, out):
         from checks.c01 import ORACLE as O1
         return O1(v, scn, out)
     res = out.get('result', {})
+    if key.endswith(':undelegated') or key.endswith(':undelegation_time'):
+        if 'ok' not in res:
+            return []
+        from checks.c01 import decode_hub
+        pre, post = decode_hub(scn['storage']), decode_hub(out.get('storage', []))
+        now = int(scn['env']['time'])
+        new = [i for i in post['hist'] if i not in pre['hist']]
+        passed = now - int(pre['items'][b'\x00\x05state']['last_unbonded_time'])
+        if key.endswith(':undelegated'):
+            return ['%d s > epoch passed but the batch was not undelegated' % passed] if (passed > int(pre['items'][b'\x00\x0bparameteres']['epoch_period']) and not new) else []
+        return ['batch %d recorded with time %s, undelegated at %d' % (i, post['hist'][i]['time'], now) for i in new if int(post['hist'][i]['time']) != now or post['hist'][i]['released']]
     if key.endswith(':blocked') or key == 'zero_pool':
         if 'ok' in res:
             return []
